@@ -11,14 +11,30 @@
 (***************************************************************************)
 EXTENDS Require, Json
 
-CONSTANTS NNames,    \* number of module names (2 or 3)
+CONSTANTS NNames,    \* number of module names
+          NameSel,   \* 1: a, b, c   2: a, p.q, p.q.r, p.q.r.s (0 to 3 dots)
+          PathSel,   \* 1: d1/?.lua;d2/?.lua   2: d1/?.lua;d2/?/init.lua;d3/?/x-?.lua (several marks)
           BehIdx,    \* indices into BehT usable by installed loaders
-          Srcs,      \* subset of {"L", "H", "F1", "F2"}: Lua preload, host PreloadModule, file in dir 1 / 2
+          Srcs,      \* subset of {"L", "H", "F1", "F2", "F3"}: Lua preload, host PreloadModule, file for template 1 / 2 / 3
+          Decoys,    \* TRUE: files are also put where a wrong name-to-file conversion would look
+                     \*       (only the first / only the last / no dot turned into the separator)
           Extra,     \* TRUE: also unpreload / rmfile / non-compiling file / global assignment / RegisterModule
           MaxHist,
           Gen
 
-Names == SubSeq(<<"a", "b", "c">>, 1, NNames)
+AllParts == IF NameSel = 1 THEN <<<<"a">>, <<"b">>, <<"c">>>>
+            ELSE <<<<"a">>, <<"p", "q">>, <<"p", "q", "r">>, <<"p", "q", "r", "s">>>>
+Parts == SubSeq(AllParts, 1, NNames)
+RECURSIVE MapName(_)
+MapName(ps) == IF Len(ps) = 0 THEN <<>> ELSE <<NameStr(Head(ps))>> \o MapName(Tail(ps))
+Names == MapName(Parts)
+
+T1 == <<<<"d1">>, <<"?", ".lua">>>>
+T2 == <<<<"d2">>, <<"?", ".lua">>>>
+T2i == <<<<"d2">>, <<"?">>, <<"init.lua">>>>
+T3 == <<<<"d3">>, <<"?">>, <<"x-", "?", ".lua">>>>
+Path == IF PathSel = 1 THEN <<T1, T2>> ELSE <<T1, T2i, T3>>
+
 NS == SeqSet(Names)
 Other(n) == LET i == CHOOSE i \in 1..Len(Names) : Names[i] = n IN Names[(i % Len(Names)) + 1]
 
@@ -51,26 +67,38 @@ vars == <<st, hist, res>>
 Clr(s) == [s EXCEPT !.log = <<>>]
 mcview == <<Clr(st), Len(hist)>>
 
-Init == /\ st = InitState(Names, 0)
+Init == /\ st = InitState(Names, Parts, 0, Path)
         /\ hist = <<>>
         /\ res = NoRes
 
+NameIdx(n) == CHOOSE i \in 1..Len(Names) : Names[i] = n
+
+(* the splits of a name a wrong conversion could use; 1 is the right one *)
+AltSplits(ps) ==
+    LET k == Len(ps) IN
+    <<ps,
+      IF k = 1 THEN ps ELSE <<ps[1], NameStr(Tail(ps))>>,
+      IF k = 1 THEN ps ELSE <<NameStr(SubSeq(ps, 1, k - 1)), ps[k]>>,
+      <<NameStr(ps)>>>>
+SplitOK(n, s) == LET a == AltSplits(Parts[NameIdx(n)]) IN \A j \in 1..(s - 1) : a[j] # a[s]
+FilePath(n, t, s) == CandNorm(Path[t], AltSplits(Parts[NameIdx(n)])[s])
+FileTs == {t \in 1..Len(Path) : ("F" \o ToString(t)) \in Srcs}
+
 Full(c) ==
     CASE c.op = "preload" -> [op |-> "preload", n |-> c.n, host |-> c.host, beh |-> BehT(c.n)[c.b]]
-      [] c.op = "file" -> [op |-> "file", n |-> c.n, d |-> c.d, syn |-> c.syn, beh |-> BehT(c.n)[c.b]]
+      [] c.op = "file" -> [op |-> "file", n |-> c.n, path |-> c.path, syn |-> c.syn, beh |-> BehT(c.n)[c.b]]
       [] OTHER -> c
 
 (* Installations have no result of their own and commute, so GEN keeps one  *)
 (* order of every run of adjacent installations: strictly increasing slot   *)
-(* (name, then preload < file 1 < file 2).  MC explores all orders.         *)
+(* (name, then preload < files by template and split).  MC explores all.    *)
 IsInstall(c) == c.op \in {"preload", "file"}
-NameIdx(n) == CHOOSE i \in 1..Len(Names) : Names[i] = n
-SlotRank(c) == 3 * NameIdx(c.n) + (IF c.op = "preload" THEN 0 ELSE c.d)
+SlotRank(c) == 16 * NameIdx(c.n) + (IF c.op = "preload" THEN 0 ELSE 4 * (c.t - 1) + c.s)
 
 Do(c) ==
-    /\ Len(hist) = 0 => c.n = Names[1]             \* the names are interchangeable
+    /\ (Len(hist) = 0 /\ NameSel = 1) => c.n = Names[1]     \* the names a, b, c are interchangeable
     /\ (Gen /\ Len(hist) > 0 /\ IsInstall(c) /\ IsInstall(hist[Len(hist)])) => SlotRank(hist[Len(hist)]) < SlotRank(c)
-    /\ OpWellFormed(Full(c))
+    /\ OpWellFormed(st, Full(c))
     /\ LET r == Exec(st, Full(c), Len(hist) + 1)
        IN /\ st' = r.st
           /\ res' = r.res
@@ -82,12 +110,13 @@ Next ==
        \/ \E n \in NS : st.loaded[n] # Nil /\ Do([op |-> "clear", n |-> n])
        \/ \E n \in NS, h \in {s \in Srcs : s \in {"L", "H"}}, i \in BehIdx :
              Do([op |-> "preload", n |-> n, host |-> (h = "H"), b |-> i])
-       \/ \E n \in NS, f \in {s \in Srcs : s \in {"F1", "F2"}}, i \in BehIdx :
-             Do([op |-> "file", n |-> n, d |-> IF f = "F1" THEN 1 ELSE 2, syn |-> FALSE, b |-> i])
+       \/ \E n \in NS, t \in FileTs, i \in BehIdx, sp \in (IF Decoys THEN 1..4 ELSE {1}) :
+             SplitOK(n, sp) /\ Do([op |-> "file", n |-> n, t |-> t, s |-> sp, syn |-> FALSE, b |-> i, path |-> FilePath(n, t, sp)])
        \/ /\ Extra
           /\ \/ \E n \in NS : st.preload[n].lid # "none" /\ Do([op |-> "unpreload", n |-> n])
-             \/ \E n \in NS, d \in 1..2 : st.files[d][n].lid # "none" /\ Do([op |-> "rmfile", n |-> n, d |-> d])
-             \/ \E n \in NS : "F1" \in Srcs /\ Do([op |-> "file", n |-> n, d |-> 1, syn |-> TRUE, b |-> 1])
+             \/ \E n \in NS, t \in 1..Len(Path) :
+                   CandLoader(st, n, t).lid # "none" /\ Do([op |-> "rmfile", n |-> n, t |-> t, path |-> FilePath(n, t, 1)])
+             \/ \E n \in NS : 1 \in FileTs /\ Do([op |-> "file", n |-> n, t |-> 1, s |-> 1, syn |-> TRUE, b |-> 1, path |-> FilePath(n, 1, 1)])
              \/ \E n \in NS, k \in {"tbl", "num", "nil"} : Do([op |-> "glob", n |-> n, kind |-> k])
              \/ \E n \in NS : Do([op |-> "register", n |-> n, f |-> IF n = Names[1] THEN "f1" ELSE "f2"])
 
@@ -96,10 +125,6 @@ Spec == Init /\ [][Next]_vars
 (* ---- laws ---------------------------------------------------------------- *)
 
 ValsOf(s) == {Nil, True, False} \cup {Tbl(i) : i \in 1..s.nobj} \cup {Num(i) : i \in 0..s.ninv}
-
-TypeOK ==
-    /\ \A n \in NS : st.loaded[n] \in ValsOf(st) \cup {Sent} /\ st.glob[n] \in ValsOf(st)
-    /\ \A p \in st.flds : IsTbl(st, p[1])
 
 (* a loaded module is never loaded again: require returns the identical     *)
 (* cached value, runs nothing and changes nothing                           *)
@@ -138,14 +163,42 @@ PreloadFirst ==
     (IsReq /\ Falsy(Op.n) /\ st.preload[Op.n].lid # "none") =>
         (Len(st'.log) >= 1 /\ st'.log[1] = <<"run", st.preload[Op.n].lid, Op.n>>)
 
+(* the path searcher: the first template whose file exists decides; a file   *)
+(* that does not compile is an error that leaves nothing behind; without any  *)
+(* file the error lists the preload attempt and every template's file name    *)
 PathOrder ==
     (IsReq /\ Falsy(Op.n) /\ st.preload[Op.n].lid = "none") =>
-        LET f1 == st.files[1][Op.n]
-            f2 == st.files[2][Op.n]
-        IN /\ (f1.lid # "none" /\ ~f1.syn) => (Len(st'.log) >= 1 /\ st'.log[1] = <<"run", f1.lid, Op.n>>)
-           /\ (f1.lid # "none" /\ f1.syn) => (res' = <<"err", "loaderr", Op.n>> /\ st' = Clr(st))
-           /\ (f1.lid = "none" /\ f2.lid # "none" /\ ~f2.syn) => (Len(st'.log) >= 1 /\ st'.log[1] = <<"run", f2.lid, Op.n>>)
-           /\ (f1.lid = "none" /\ f2.lid = "none") => (res' = <<"err", "notfound", Op.n, "P", "11">> /\ st' = Clr(st))
+        LET n == Op.n
+            has == {i \in 1..NT(st) : CandLoader(st, n, i).lid # "none"}
+        IN IF has = {}
+           THEN /\ res' = <<"err", "notfound", n, "P">> \o CandRaws(st, n)
+                /\ Len(res') = 4 + Len(Path)
+                /\ st' = Clr(st)
+           ELSE LET i == CHOOSE i \in has : \A j \in has : i <= j
+                    f == CandLoader(st, n, i)
+                IN IF f.syn THEN res' = <<"err", "loaderr", CandRaw(st.path[i], st.parts[n])>> /\ st' = Clr(st)
+                   ELSE Len(st'.log) >= 1 /\ st'.log[1] = <<"run", f.lid, n>>
+
+(* A file is found only under the name with ALL dots turned into directory   *)
+(* separators: a loader that runs was installed as a preload entry or at the  *)
+(* right split of its name, never at a decoy; and every mark of a template is *)
+(* replaced (one more path segment per dot and mark).                         *)
+InstallerOf(lid) == hist'[CHOOSE k \in 1..Len(hist') : ("L" \o ToString(k)) = lid]
+DecoyNeverLoaded ==
+    \A j \in 1..Len(st'.log) : st'.log[j][1] = "run" =>
+        LET c == InstallerOf(st'.log[j][2]) IN c.op = "preload" \/ (c.op = "file" /\ c.s = 1)
+Marks(t) == LET RECURSIVE Cnt(_)
+                Cnt(x) == IF Len(x) = 0 THEN 0 ELSE Cardinality({k \in 1..Len(x[1]) : x[1][k] = Mark}) + Cnt(Tail(x))
+            IN Cnt(t)
+EveryDotEveryMark ==
+    \A i \in 1..Len(Names), t \in 1..Len(Path) :
+        Len(CandSegs(Path[t], Parts[i])) = Len(Path[t]) + Marks(Path[t]) * (Len(Parts[i]) - 1)
+
+TypeOK ==
+    /\ \A n \in NS : st.loaded[n] \in ValsOf(st) \cup {Sent} /\ st.glob[n] \in ValsOf(st)
+    /\ \A p \in st.flds : IsTbl(st, p[1])
+    /\ NamesWellFormed(Names, Parts)
+    /\ EveryDotEveryMark
 
 NothingMeansTrue ==
     (IsReq /\ Falsy(Op.n) /\ Found(Op.n).kind = "found" /\ Found(Op.n).ld.beh = NoBeh) =>
@@ -195,7 +248,7 @@ RegisterReachable ==
         /\ DoRequire(Clr(st'), Op.n).res = Ok(T)
 
 StepLaws == /\ CacheStable /\ ResultIsCached /\ SentinelOnlyAfterFailure /\ FailureLeavesSentinel
-            /\ PreloadFirst /\ PathOrder /\ NothingMeansTrue /\ ReturnedValueWins /\ SelfLoop /\ MutualLoop
+            /\ PreloadFirst /\ PathOrder /\ DecoyNeverLoaded /\ NothingMeansTrue /\ ReturnedValueWins /\ SelfLoop /\ MutualLoop
             /\ RegisterReachable
 Laws == [][StepLaws]_vars
 
